@@ -360,3 +360,114 @@ Proof. unfold cfit_lambda. rewrite rdot_mc_norm. reflexivity. Qed.
 (* the mixture reduces to the signal density when there is no background *)
 Lemma cfit_prob_no_bg isig ibg s b : cfit_prob 0 isig ibg s b = s / isig.
 Proof. unfold cfit_prob. unfold Rdiv. ring. Qed.
+
+(* ---- resolution_size > 1 ---- *)
+
+Lemma dom_w_nz W : W <> 0 -> dom_w W = W.
+Proof. intros H. unfold dom_w. destruct (Req_EM_T W 0); [contradiction | reflexivity]. Qed.
+
+Lemma ev_density_nz_eq we fe : Forall (fun w => rsum w <> 0) we -> ev_density we fe = ev_density_nz we fe.
+Proof.
+  intros H. revert fe. induction H as [|w we Hw _ IH]; intros [|f fe]; cbn [ev_density ev_density_nz]; try reflexivity.
+  rewrite (dom_w_nz _ Hw), IH. reflexivity.
+Qed.
+
+(* one Coq-Interval goal certifies that no event weight vanishes *)
+Lemma ev_density_cert c we fe :
+  0 < c -> shortfall c (sqs (ev_weights we)) <= c / 2 -> ev_density we fe = ev_density_nz we fe.
+Proof.
+  intros Hc H. apply ev_density_nz_eq. pose proof (shortfall_gt c _ Hc H) as F.
+  unfold sqs, ev_weights in F. rewrite map_map in F. rewrite Forall_map in F.
+  eapply Forall_impl; [|exact F]. cbn. intros w Hw E. rewrite E in Hw. lra.
+Qed.
+
+Lemma chunk_1 l : chunk 1 l = map (fun x => [x]) l.
+Proof. unfold chunk. induction l as [|x l IH]; [reflexivity|]. cbn [length chunk_fuel firstn skipn map]. rewrite IH. reflexivity. Qed.
+
+Lemma ev_weights_singletons w : ev_weights (map (fun x => [x]) w) = w.
+Proof. unfold ev_weights. induction w as [|x w IH]; cbn [map rsum]; [reflexivity|]. rewrite IH. f_equal. lra. Qed.
+
+Lemma rsum_concat_singletons w : rsum (concat (map (fun x => [x]) w)) = rsum w.
+Proof. induction w as [|x w IH]; cbn [map concat app rsum]; [reflexivity|]. rewrite IH. reflexivity. Qed.
+
+Lemma singleton_term a f : a * clip_log (a * f / dom_w a) = a * clip_log f.
+Proof.
+  destruct (Req_EM_T a 0) as [E|N]; [subst; ring|]. rewrite (dom_w_nz a N).
+  replace (a * f / a) with f by (field; exact N). reflexivity.
+Qed.
+
+Lemma rdot_singletons w f :
+  rdot w (map clip_log (ev_density (map (fun x => [x]) w) (map (fun x => [x]) f))) = rdot w (map clip_log f).
+Proof.
+  revert f. induction w as [|a w IH]; intros [|b f]; cbn [map ev_density rdot rsum]; try reflexivity.
+  rewrite IH. replace (a * b + 0) with (a * b) by lra. replace (a + 0) with a by lra.
+  rewrite singleton_term. reflexivity.
+Qed.
+
+(* R = 1 : the resolution formula is the plain formula (also for vanishing weights) *)
+Theorem nll_res_R1 ext w f v g :
+  nll_gradval_res ext (chunk 1 w) (chunk 1 f) v g = nll_gradval ext w f v g /\
+  nll_base_res ext (chunk 1 w) (chunk 1 f) v g = nll_base ext w f v g.
+Proof.
+  rewrite !chunk_1. unfold nll_gradval_res, nll_gradval, nll_base_res, nll_base, alpha.
+  rewrite !ev_weights_singletons, !rsum_concat_singletons, !rdot_singletons. split; reflexivity.
+Qed.
+
+Lemma ev_weights_app a b : ev_weights (a ++ b) = ev_weights a ++ ev_weights b.
+Proof. unfold ev_weights. apply map_app. Qed.
+
+Lemma ev_density_app a b c d : length a = length c ->
+  ev_density (a ++ b) (c ++ d) = ev_density a c ++ ev_density b d.
+Proof.
+  revert c. induction a as [|x a IH]; intros [|y c] L; cbn [length] in L; try discriminate; [reflexivity|].
+  cbn [app ev_density]. rewrite IH by (injection L; auto). reflexivity.
+Qed.
+
+Lemma length_ev_density a c : length a = length c -> length (ev_density a c) = length a.
+Proof.
+  revert c. induction a as [|x a IH]; intros [|y c] L; cbn [length] in L; try discriminate; [reflexivity|].
+  cbn [ev_density length]. rewrite IH by (injection L; auto). reflexivity.
+Qed.
+
+Definition ev_batches_ok (bd : list (list (list R) * list (list R))) : Prop :=
+  Forall (fun b => length (fst b) = length (snd b)) bd.
+
+Lemma ev_rdot_concat bd : ev_batches_ok bd ->
+  rdot (ev_weights (concat (map fst bd))) (map clip_log (ev_density (concat (map fst bd)) (concat (map snd bd))))
+  = rsum (map (fun b => rdot (ev_weights (fst b)) (map clip_log (ev_density (fst b) (snd b)))) bd).
+Proof.
+  induction 1 as [|b bd Hb _ IH]; cbn [map concat rsum]; [reflexivity|].
+  rewrite ev_weights_app, ev_density_app by exact Hb. rewrite map_app.
+  rewrite rdot_app; [rewrite IH; reflexivity|].
+  unfold ev_weights. rewrite !map_length. symmetry. apply length_ev_density. exact Hb.
+Qed.
+
+Lemma rsum_concat_concat (bd : list (list (list R) * list (list R))) :
+  rsum (concat (concat (map fst bd))) = rsum (map (fun b => rsum (concat (fst b))) bd).
+Proof.
+  induction bd as [|b bd IH]; cbn [map concat rsum]; [reflexivity|].
+  rewrite concat_app, rsum_app, IH. reflexivity.
+Qed.
+
+(* batch independence with resolution: any split into batches of WHOLE events *)
+Theorem nll_res_batch_independent ext bd bm : ev_batches_ok bd -> batches_ok bm ->
+  nll_gradval_res_batched ext bd bm
+  = nll_gradval_res ext (concat (map fst bd)) (concat (map snd bd)) (concat (map fst bm)) (concat (map snd bm)).
+Proof.
+  intros Hd Hm. unfold nll_gradval_res_batched, nll_gradval_res.
+  rewrite (ev_rdot_concat bd Hd), rsum_concat_concat, (rdot_concat_pairs bm Hm). reflexivity.
+Qed.
+
+(* the event weights carry the whole sample weight: sum_e W_e = sum over samples *)
+Lemma rsum_ev_weights we : rsum (ev_weights we) = rsum (concat we).
+Proof. unfold ev_weights. rewrite rsum_concat. reflexivity. Qed.
+
+(* the event density is linear in the per-sample densities: d/dtheta commutes with the folding *)
+Lemma ev_density_nz_linear (w f1 f2 : list R) (c : R) : length f1 = length f2 ->
+  rdot w (rzip Rplus f1 (rscale c f2)) / rsum w = rdot w f1 / rsum w + c * (rdot w f2 / rsum w).
+Proof.
+  intros L. assert (E : rdot w (rzip Rplus f1 (rscale c f2)) = rdot w f1 + c * rdot w f2).
+  { revert f1 f2 L. induction w as [|a w IH]; intros [|x f1] [|y f2] L; cbn [length] in L; try discriminate;
+      unfold rscale; cbn [map rzip rdot]; try lra. fold (rscale c f2). rewrite IH by (injection L; auto). ring. }
+  rewrite E. unfold Rdiv. ring.
+Qed.
